@@ -127,12 +127,12 @@ func runFaults(a CLIArgs) int {
 		nCalls += len(calls)
 		var runs []faultRun
 		for _, c := range calls {
-			if !c.write && !thorough {
-				continue // quick tier: writes only
-			}
 			for _, k := range kinds {
 				if !c.write && k != FaultReject && k != FaultCrashBefore {
 					continue
+				}
+				if !c.write && !thorough && k != FaultReject {
+					continue // quick tier: a read is only rejected (a stop before a read is a stop after the previous write)
 				}
 				runs = append(runs, faultRun{scenario: name, k: c.seq, kind: k})
 			}
